@@ -77,6 +77,7 @@ HARNESSES = {
     'wait_group': dict(src='harness/wait_group.cpp', kind='mc'),
     'pool': dict(src='harness/pool.cpp', kind='mc'),
     'chain': dict(src='harness/chain.cpp', kind='mc'),
+    'exec_seq': dict(src='harness/exec_seq.cpp', kind='seq', extra=['engine/seq_support.cpp']),
 }
 
 
@@ -345,8 +346,12 @@ CHECKS = {
                   thorough=dict(shards=16, args=['--mode', 'lazy', '--prop', 'C05'])),
               mc('strand', 'mc-asan', quick=dict(P=2, S=1, cells='stop=(stop|hard)'), thorough=dict(P=3, S=1)),
               mc('pool', 'mc-asan', quick=dict(P=2, cells='k=1,j=[12]|k=2,j=1,resub=0'), thorough=dict(P=3)),
-              mc('chain', 'mc-asan', quick=dict(P=3, S=1, cells='steps=.?[EQ]|src=task'), thorough=dict(P=4, S=1, cells='steps=.?[EQ]|src=task'))],
-        assumptions=['sequential part: C++17 / FAULT=OFF instantiation with instrumented inline executors; '
+              mc('chain', 'mc-asan', quick=dict(P=3, S=1, cells='steps=.?[EQ]|src=task'), thorough=dict(P=4, S=1, cells='steps=.?[EQ]|src=task')),
+              seq('exec_seq', 'seq17', quick=dict(shards=1, args=[]), thorough=dict(shards=1, args=[]))],
+        assumptions=['exec_seq: every operation sequence of length <= 8 (thorough 10) over {submit, re-entrant submit, yaclib::Submit(functor), '
+                     'drain, start refusing} on MakeInline(), MakeInline(StopTag), ManualExecutor and a refusing queue executor, used directly, '
+                     'through a Strand and through a Strand over a Strand, single-threaded, against a list model',
+                     'sequential part: C++17 / FAULT=OFF instantiation with instrumented inline executors; '
                      'concurrent part: FIBER instantiation, sequentially consistent executions, preemption bounds of C07/C08',
                      'co_await On(e) is covered in C13'],
         technique='bounded exhaustive enumeration of programs x rejection points against a reference model, plus exhaustive preemption-bounded schedule enumeration',
@@ -376,13 +381,17 @@ CHECKS = {
                    'each source, attach and finish call (callback bodies bracketed out): at most 1 per step, 0 for Get/Detach()/start; '
                    'WhenAll / WhenAny / Join x 3 fail policies x pending/ready inputs x n = 1..8: the same number of blocks for every '
                    'n >= 2 and at most 4; Wait / WaitFor / WaitUntil (iterator n = 1..8, variadic n = 1,2,4; ready and timing out), '
-                   'Future::Get and Strand::Submit of an existing job: 0',
+                   'Future::Get and Strand::Submit of an existing job: 0; with coroutines enabled, co_await of a Future / SharedFuture and '
+                   'Await / AwaitOn / AwaitSticky / AwaitInline over 1, 2, 4 futures (variadic and iterator forms), already complete and '
+                   'completed while the coroutine is suspended: 0 between the statements around the co_await',
         budget=dict(quick=200, thorough=1200),
         runs=[seq('pipeline', 'seq17-plain', quick=dict(shards=16, args=['--mode', 'alloc', '--prop', 'C20']),
                   thorough=dict(shards=16, args=['--mode', 'alloc', '--prop', 'C20'])),
-              seq('alloc', 'seq17-plain')],
-        assumptions=['C++17 / FAULT=OFF / NDEBUG / -O2 instantiation as shipped by the baseline, no sanitizer (allocation counts of the real build)',
-                     'blocks are counted, not bytes; co_await allocations are covered with the coroutine harnesses'],
+              seq('alloc', 'seq17-plain'),
+              seq('alloc', 'seq20-plain')],
+        assumptions=['C++17 / FAULT=OFF / NDEBUG / -O2 instantiation as shipped by the baseline, no sanitizer (allocation counts of the real build); '
+                     'the co_await part in the same configuration with C++20 and coroutines enabled',
+                     'blocks are counted, not bytes; the frame of a coroutine is attributed to the call of the coroutine, not to the co_await inside it'],
         technique='bounded exhaustive enumeration of programs and input counts with an allocation ledger',
     ),
     'C06': dict(
@@ -405,8 +414,11 @@ CHECKS = {
                    '(Stop/HardStop) the underlying executor at any moment',
         budget=dict(quick=240, thorough=2400),
         runs=[mc('strand', 'mc-asan', quick=dict(P=2, S=1), thorough=dict(P=3, S=1)),
-              mc('strand', 'mc-hb', quick=dict(P=2, S=1), thorough=dict(P=3, S=1))],
+              mc('strand', 'mc-hb', quick=dict(P=2, S=1), thorough=dict(P=3, S=1)),
+              seq('exec_seq', 'seq17', quick=dict(shards=1, args=[]), thorough=dict(shards=1, args=[]))],
         assumptions=['FIBER instantiation; sequentially consistent executions; preemption bound as stated',
+                     'exec_seq (single submitting thread): every operation sequence of length <= 8 (thorough 10) on a Strand and a Strand over a '
+                     'Strand over inline / stopped inline / manual / refusing queue executors incl. re-entrant submission from inside a job, against a list model',
                      'happens-before between consecutive jobs is checked by the HB monitor on plain fields written by every job'],
         technique='stateless model checking: exhaustive preemption-bounded schedule enumeration of the implementation',
     ),
